@@ -229,8 +229,10 @@ static void parse_case(char *text)
         G.unit[i].skip_mutex = -1;
         G.unit[i].expect_pool = G.unit[i].cur_pool = -1;
     }
-    for (int i = 0; i < MAXP; i++)
+    for (int i = 0; i < MAXP; i++) {
         G.pool[i].sub = -1;
+        G.pool[i].h = ABT_POOL_NULL;
+    }
     for (int i = 0; i < MAXEXT; i++)
         G.ext[i].skip_mutex = -1;
     g_nenv = 0;
@@ -315,6 +317,10 @@ static void parse_case(char *text)
             char *sv;
             for (char *t = strtok_r(pl, ",", &sv); t; t = strtok_r(NULL, ",", &sv))
                 G.xs[i].pools[G.xs[i].npools++] = atoi(t);
+            kvs(line, "alt", pl, sizeof pl);
+            G.xs[i].nalt = 0;
+            for (char *t = strtok_r(pl, ",", &sv); t; t = strtok_r(NULL, ",", &sv))
+                G.xs[i].alt[G.xs[i].nalt++] = atoi(t);
             if (i >= G.nxs)
                 G.nxs = i + 1;
         } else if (!strncmp(line, "mutex", 5)) {
